@@ -175,8 +175,11 @@ def configs(tier, rng):
     for a in range(2, hi + 1):
         for b in range(2, hi + 1):
             cfgs.append({"kind": "grid2", "sides": [a, b]})
-            cfgs.append({"kind": "tri", "sides": [a, b], "open": 0})
-            cfgs.append({"kind": "tri", "sides": [a, b], "open": 1})
+            # lattices that differ only in the boundary condition, built one after the other in the same process, in both orders
+            # (the matrices are functions of the lattice alone, whatever was built before)
+            first = (a + b) % 2
+            cfgs.append({"kind": "tri", "sides": [a, b], "open": first})
+            cfgs.append({"kind": "tri", "sides": [a, b], "open": 1 - first})
     for a in range(2, hi3 + 1):
         for b in range(2, hi3 + 1):
             for c in range(2, hi3 + 1):
